@@ -116,6 +116,12 @@ def _inline_functions(ctx, opt):
         facts = inline_facts(inl, r)
         ok = _not_requested(facts, ast.Name(id="key", ctx=ast.Load()))
         ctx.ob("DOM.protect.inline-functions", r, "inlinable(key, task) is True only if key not in output", ok, "" if ok else "guards: " + "; ".join(fact_strs(facts)))
+        # `inline` rewrites legacy tuples only: a key may be deleted only if NO dependent is a GraphNode
+        # (a node dependent would keep a reference to the deleted key)
+        ok2 = has_fact(facts, "any((isinstance(dsk[M_d], GraphNode) for M_d in dependents[key]))", False) is not None
+        ctx.ob("DOM.protect.inline-functions.no-node-dependent", r, "inlinable only if no dependent of key is a GraphNode", ok2, "" if ok2 else "a key with a task-object dependent can be inlined and deleted: that dependent keeps a dangling reference; guards: " + "; ".join(fact_strs(facts)))
+        ok3 = has_fact(facts, "isinstance(task, GraphNode)", False) is not None and has_fact(facts, "istask(task)", True) is not None
+        ctx.ob("DOM.protect.inline-functions.legacy-task", r, "inlinable only for legacy task tuples", ok3)
     dels = find("del dsk[M_k]", f, nested=False)
     ctx.count("inline_functions_del_sites", len(dels))
     ctx.floor("inline_functions_del_sites", 1)
@@ -207,6 +213,11 @@ def _fuse(ctx, opt):
             if isinstance(v, ast.Call) and (call_name(v) == "reducible.pop" or (call_name(v) in aliases and aliases[call_name(v)] == ("reducible", "pop"))):
                 ok, why = True, "re-insertion of an element just popped from reducible"
         ctx.ob("DOM.protect.fuse.reducible", c, f"reducible.add({unparse(k)})", ok, why if ok else "a requested key can become reducible (and be fused away); guards: " + "; ".join(fact_strs(facts)))
+        if "popped" not in why:
+            ok2 = has_fact(facts, "any((isinstance(dsk[M_v], GraphNode) for M_v in vals))", False) is not None and has_fact(facts, "isinstance(dsk[M_k], GraphNode)", False, {"M_k": k}) is not None
+            ctx.ob("DOM.protect.fuse.legacy-only", c, "reducible only if neither the key nor any dependent is a GraphNode (subs rewrites tuples only)", ok2)
+            ok3 = has_fact(facts, "len(vals) == 1", True) is not None and has_fact(facts, "M_k in dsk", True, {"M_k": k}) is not None
+            ctx.ob("DOM.protect.fuse.single-dependent", c, "reducible only with exactly one dependent, and present in the graph", ok3)
     # children stack: only parents and reducible children
     for c in calls(f, None, nested=False):
         cn = call_name(c)
@@ -309,6 +320,9 @@ VARIANTS = [
     (OPT, "            if keys is not None and child in keys:\n                unfusible.add(child)\n            elif child in child2parent:", "            if child in child2parent:", "DOM.protect.fuse-linear"),
     (OPT, "            for key in aliases - keys:", "            for key in aliases:", "DOM.protect.fuse-linear.alias-delete"),
     (OPT, "            and key not in output\n", "", "DOM.protect.inline-functions"),
+    (OPT, "fast_functions) and not any(\n                    isinstance(dsk[d], GraphNode) for d in dependents[key]", "fast_functions) and not all(\n                    isinstance(dsk[d], GraphNode) for d in dependents[key]", "no-node-dependent"),
+    (OPT, "            and not any(isinstance(dsk[v], GraphNode) for v in vals)\n", "", "DOM.protect.fuse.legacy-only"),
+    (OPT, "            len(vals) == 1\n            and k not in (keys or ())", "            len(vals) >= 1\n            and k not in (keys or ())", "DOM.protect.fuse.single-dependent"),
     (TS, "                or new_key in keys\n", "", "DOM.protect.fuse-spec.down"),
     (TS, "        while len(dependents_key) == 1 and top_key not in keys:", "        while len(dependents_key) == 1:", "DOM.protect.fuse-spec.up"),
     (TS, "                target_key not in keys\n                and target_key in dsk", "                target_key in dsk", "DOM.protect.resolve-aliases"),
